@@ -99,7 +99,8 @@ def newIndex (config : IndexConfig) : Res Index :=
   match columns config.key with
   | .error e => .error e
   | .ok cols =>
-    if config.expiry > 0 && config.key.length > 1 then .error .err
+    if cols.any (fun c => isOpKey c.path) then .error .err          -- fields starting with `$` are rejected
+    else if config.expiry > 0 && config.key.length > 1 then .error .err
     else .ok { config := config, columns := cols, entries := [] }
 
 /-- mongokit.Index.Build -/
